@@ -1,6 +1,6 @@
 (* Props/C02.v — every message is laid out on the wire exactly as the pinned protocol schema says. *)
 From FP.Props Require Import Common C03.
-From FP.Theory Require Import Uniform.
+From FP.Theory Require Import Uniform LRenderSound.
 From FP.Pinned Require Import Pinned.
 Import Coq.Strings.String.StringSyntax.
 Delimit Scope string_scope with string.
@@ -47,6 +47,39 @@ Proof.
   destruct (list_eq_dec lkind_eq_dec l' (lt_fields lt)) as [->|]; [reflexivity|discriminate].
 Qed.
 
+(* (3) the bytes: what Encode appends is what the independent renderer of the PINNED layout (Spec/LRender.v: fields
+   left to right, one byte order per protocol, nested and selected parts by their own layouts, the frame's length
+   counted from the body's bytes and its checksum computed over the frame's bytes - no reference to the message
+   programs or the recognised schemas) produces from the message as Encode leaves it. *)
+Lemma H_sums : sums_ok registry0 schemas = true.
+Proof. vm_compute. reflexivity. Qed.
+
+Lemma combine_Forall2 {A B} (P : A -> B -> Prop) : forall (l1 : list A) (l2 : list B),
+  length l1 = length l2 -> (forall x y, In (x, y) (combine l1 l2) -> P x y) -> Forall2 P l1 l2.
+Proof.
+  induction l1 as [|a l1 IH]; intros [|b l2] Hlen H; try discriminate; constructor.
+  - apply H. left. reflexivity.
+  - apply IH; [cbn in Hlen; congruence|]. intros x y Hin. apply H. right. exact Hin.
+Qed.
+
+Lemma pinned_lays_out : Forall2 (lays_out order_of) schemas pinned_layouts.
+Proof.
+  apply combine_Forall2.
+  - pose proof H_pin_layouts as H. unfold layouts_match in H. apply andb_true_iff in H. destruct H as [H _].
+    apply Nat.eqb_eq. exact H.
+  - intros sd lt Hin. exact (C02_schema_is_pinned_layout sd lt Hin).
+Qed.
+
+Theorem C02_encoded_bytes_are_the_pinned_layout_rendered : forall t fs buf fs' buf',
+  typed t fs = true -> encode t fs buf = Ok (fs', buf') ->
+  exists bs, buf' = buf ++ bs /\ lrender registry0 order_of pinned_layouts t fs' = Ok bs.
+Proof.
+  intros t fs buf fs' buf' Ht H. rewrite encode_spec in H by exact Ht.
+  destruct (senc t fs) as [[a b]|] eqn:E; cbn [lift] in H; [|discriminate]. inversion H; subst.
+  exists b. split; [reflexivity|].
+  exact (lrender_sound tables registry0 order_of schemas pinned_layouts pinned_lays_out H_sums t fs fs' b E).
+Qed.
+
 (* non-vacuity: the SSE frame's pinned layout, and a concrete encoding laid out accordingly *)
 Example C02_sse_frame_layout :
   option_map lt_fields (find (fun lt => lt_id lt =? id_sse_bin_SseBinary) pinned_layouts)
@@ -58,5 +91,12 @@ Example C02_nonvacuous :
         [x00; x00; x00; x21;  x00; x00; x00; x00; x00; x00; x01; x02;  x00; x00; x00; x00;  x00; x00; x00; x24]).
 Proof. vm_compute. reflexivity. Qed.
 
+(* the renderer on its own: the stored length and checksum fields are ignored (here stale: 7 and 9) *)
+Example C02_renderer_nonvacuous :
+  lrender registry0 order_of pinned_layouts id_sse_bin_SseBinary [VInt 33; VInt 258; VInt 7; VObj id_sse_bin_Heartbeat []; VInt 9]
+  = Ok [x00; x00; x00; x21;  x00; x00; x00; x00; x00; x00; x01; x02;  x00; x00; x00; x00;  x00; x00; x00; x24].
+Proof. vm_compute. reflexivity. Qed.
+
 Print Assumptions C02_code_behaves_as_schema.
 Print Assumptions C02_schema_is_pinned_layout.
+Print Assumptions C02_encoded_bytes_are_the_pinned_layout_rendered.
